@@ -16,17 +16,27 @@ PROP = dict(
           "windows and a grid of day/hour/minute/second/fraction extremes through the sanitized build, every 11th (quick) / every (thorough) "
           "microsecond of the +-2 s windows through the -O2 build, all x precision -1..6, plus random durations up to 2^63 us (log-uniform, unit "
           "multiples, rounding ties, 59.99.. carries). Timestamps: second 0, 59 and 86399 of every day 1970-01-01..9999-12-31, every day of nine "
-          "corner years, random (leap-day / new-year / century biased) with random microseconds. Sizes: 1024^k+-3, mantissa rounding corners of every "
+          "corner years, random (leap-day / new-year / century biased) with random microseconds. Timestamp sequences (time_seq): 2..11 (enumerated: 5) "
+          "format_time calls made back to back on one fresh thread, consecutive timestamps related by: same second with other microseconds, a timestamp "
+          "of the sequence again, +-k x {1 us, 999999 us, 1 s, 1 min, 1 h, 1 day, 365 days, 2^32 us, 2^32 ms, 2^16 s, 2^24 s, 2^31 s, 2^32 s} (k = 1..3, "
+          "sometimes 1..59); enumerated for 72 base timestamps x every relation x k = 1..3 and every k x 2^32 s that stays inside 1970..9999; every "
+          "result of the sequence is compared with the civil-calendar reference. Incoming errno: every duration / time / time_seq / size / parse_size case "
+          "carries the errno value (0, ERANGE, EINVAL, EILSEQ, EINTR, EDOM, ENOENT, EAGAIN, ENOMEM, EOVERFLOW; random cases: 0 a third of the time, else "
+          "uniform; enumerators: rotating, parse_size texts x {0, ERANGE, EINVAL, EILSEQ, EINTR}, boundary sizes x {0, ERANGE, EINVAL, EINTR}) that is stored "
+          "immediately before each call into phosg; the same oracle applies whatever it is. Sizes: 1024^k+-3, mantissa rounding corners of every "
           "unit, 2^k+-1, every size below 1.1 MiB (quick) / 5 MiB (thorough), random 64-bit, both include_bytes; parse_size texts for every unit letter. "
           "timeval: boundaries + random usecs < 2^63. A Hypothesis driver repeats a sample of all three families (every 37th/7th day, +-2 ms duration windows, "
           "unit boundaries, generated batches) against Python's datetime and fractions.Fraction. Non-trivial: a duration >= 60 s with explicit precision or within 1 ms of a unit boundary "
           "(distinct (usecs, precision)); a timestamp on Feb 28/29, Mar 1, Dec 31, Jan 1, at second 59 or with non-zero microseconds; a size >= 1024; "
-          "a parse_size text with a unit and a fraction; a timeval with both fields non-zero. Distinct = distinct case encodings (hash)."),
+          "a parse_size text with a unit and a fraction; a timeval with both fields non-zero; a timestamp sequence that visits at least two different seconds. Distinct = distinct case encodings (hash)."),
     assumptions=["subsecond_precision in -1..6; durations <= 2^63 us", "timestamps in years 1970..9999 (UTC)",
                  "sizes that print as '16.00 EB' (= 2^64, not representable in size_t) are checked for a faithful text only and counted as excluded from the parse_size round trip",
                  "format_size's mantissa is computed in float: tolerance 0.005 unit + 2^-23 size (+1 byte for parse_size), as DESIGN C18 states",
                  "for precision -1 the number of printed fraction digits is not prescribed; the value must be faithful at whatever precision is printed",
-                 "usecs < 2^63 for the timeval conversions"],
+                 "usecs < 2^63 for the timeval conversions",
+                 "format_duration / format_time / format_size / parse_size are pure functions of their arguments: neither the errno value on entry nor "
+                 "earlier calls on the same thread may change a result (each time_seq case runs on a fresh thread so that it replays exactly); "
+                 "parse_size must return (not throw) for every text that denotes a representable size"],
     min_evaluations_quick=1000000,
     technique=("property-based testing: exhaustive window sweeps + rapidcheck generation against references written in the harness with exact "
                "integer arithmetic (duration-text evaluator in 128-bit microseconds, days-to-civil conversion cross-checked against std::chrono and "
